@@ -11,7 +11,7 @@
      good_leaves t  every leaf carries a taxon and no taxon sits on two leaves
    Lengths are integers in units of 2^-10 (None = Python None, counted as 0). *)
 From Coq Require Import ZArith QArith List Bool.
-From DV Require Import Model.PyPrims Model.Tree Model.C14Model Model.C14Spec Proofs.C14Proofs.
+From DV Require Import Model.PyPrims Model.Tree Model.C14Model Model.C14Spec Proofs.C14Proofs Proofs.C14Means Proofs.C14Clu.
 Import ListNotations.
 Open Scope Z_scope.
 
@@ -70,3 +70,182 @@ Theorem pdm_single_node : forall i x lb e,
     p_num_edges p = 1 /\ p_tree_length p = total_length (T i x lb e []).
 Proof. exact pdm_single_node_p. Qed.
 Print Assumptions pdm_single_node.
+
+(* mean_pairwise_distance(filter_fn, is_weighted_edge_distances, is_normalize_by_tree_size): the
+   average, over the unordered pairs of distinct leaf taxa that both pass the filter, of the path
+   length (weighted: in real units) or step count, divided by the normalisation factor (tree length
+   incl. the root edge / number of nodes, or 1).  NullAssemblageException (a ValueError) when no
+   pair passes, ZeroDivisionError when normalising by a zero tree length.  Q-valued: `==`. *)
+Theorem mean_pairwise_spec : forall t p filt w n,
+  good_leaves t -> t_kids t <> [] -> compile_from_tree t = Ok p ->
+  let prs := filter (fun ab => passes filt (fst ab) && passes filt (snd ab)) (ordered_pairs (taxa_of t)) in
+  let ds := map (fun ab => dval t w (fst ab) (snd ab)) prs in
+  match mean_pairwise_distance p filt w n with
+  | Ok q => prs <> [] /\ ~ (nfac t w n == 0)%Q /\
+            (q == qsum ds / nfac t w n / inject_Z (Z.of_nat (length prs)))%Q
+  | Err e => (prs = [] /\ e = ValueErr) \/ (prs <> [] /\ (nfac t w n == 0)%Q /\ e = OtherErr)
+  | OutOfFuel => False
+  end.
+Proof. exact mean_pairwise_spec_p. Qed.
+Print Assumptions mean_pairwise_spec.
+
+(* mean_nearest_taxon_distance: the average, over the leaf taxa a that pass the filter and have at
+   least one other passing taxon, of the minimum over those other taxa b of the entry (a, b). *)
+Theorem mntd_spec : forall t p filt w n,
+  good_leaves t -> t_kids t <> [] -> compile_from_tree t = Ok p ->
+  let taxa := taxa_of t in
+  let rows := filter (fun a => match others_of filt taxa a with [] => false | _ => true end)
+                     (filter (passes filt) taxa) in
+  let mins := map (fun a => qmin_list (map (dval t w a) (others_of filt taxa a))) rows in
+  match mean_nearest_taxon_distance p filt w n with
+  | Ok q => rows <> [] /\ ~ (nfac t w n == 0)%Q /\
+            (q == qsum mins / nfac t w n / inject_Z (Z.of_nat (length rows)))%Q
+  | Err e => (rows = [] /\ e = ValueErr) \/ (rows <> [] /\ (nfac t w n == 0)%Q /\ e = OtherErr)
+  | OutOfFuel => False
+  end.
+Proof. exact mntd_spec_p. Qed.
+Print Assumptions mntd_spec.
+
+(* qmin_list is the minimum: a lower bound that is attained *)
+Theorem qmin_list_is_min : forall l, l <> [] ->
+  In (qmin_list l) l /\ forall x, In x l -> (qmin_list l <= x)%Q.
+Proof. exact (fun l H => conj (qmin_list_in l H) (qmin_list_le l)). Qed.
+Print Assumptions qmin_list_is_min.
+
+(* the hypotheses of pdm_exact are satisfiable by a tree with a polytomy, a unifurcation and a None length *)
+Example pdm_exact_nonvacuous : good_leaves ex_tree /\ t_kids ex_tree <> [].
+Proof. exact ex_good. Qed.
+Print Assumptions pdm_exact_nonvacuous.
+
+(* ---------------------------------------------------------------------------------------- *)
+(* Tree.mrca(taxa=S, start_node=start, is_bipartitions_updated=updated) on the tree object
+   (t, rooted, enc): enc is the leafset bitmask stored on every node's edge (0 = never encoded).
+
+   The call refreshes the encoding when the start node's stored mask is 0 or updated = False.  A
+   refresh is encode_bipartitions(suppress_unifurcations=False), which on a tree NOT flagged rooted
+   first collapses a basal bifurcation: the tree after the call is `tree_after t rooted refresh`
+   (same leaves, see mrca_refresh_keeps_leaves; identical to t when rooted = Some true).
+
+   Provided the encoding is current or a refresh happens, the call returns the deepest node, below
+   the start node, of the tree as it is after the call whose leaves include every taxon of S, and
+   None when the start node's leaves do not include S.  Without a refresh the tree object is
+   unchanged. *)
+Theorem tree_mrca_deepest :
+  forall (ns : nspace) (t : tree) (rooted : option bool) (enc : dict Z) (S : list Z)
+         (start : option Z) (updated : bool),
+  ns_inj ns -> (forall a, In a S -> member ns a) -> S <> [] ->
+  let sid := match start with Some i => i | None => t_id t end in
+  let refresh := Z.eqb (enc_get enc sid) 0 || negb updated in
+  let t' := tree_after t rooted refresh in
+  good_leaves t' -> members_ok ns t' -> NoDup (ids t') ->
+  (refresh = true \/ current ns enc t) ->
+  forall st, find_node sid t' = Some st ->
+  exists mt', tree_mrca ns (mkMt t rooted enc) (ByTaxa S) start updated
+              = (Ok (option_map t_id (deepest S st)), mt')
+              /\ mt_tree mt' = t' /\ (refresh = false -> mt' = mkMt t rooted enc).
+Proof. exact tree_mrca_deepest_p. Qed.
+Print Assumptions tree_mrca_deepest.
+
+Example tree_mrca_nonvacuous :
+  ns_inj ex_ns /\ (forall a, In a [2; 3] -> member ex_ns a) /\ members_ok ex_ns ex_tree /\ NoDup (ids ex_tree)
+  /\ find_node 0 (tree_after ex_tree None true) = Some ex_tree.
+Proof. exact ex_mrca_hyps. Qed.
+Print Assumptions tree_mrca_nonvacuous.
+
+Theorem mrca_refresh_keeps_leaves : forall t rooted refresh,
+  leaf_taxa (tree_after t rooted refresh) = leaf_taxa t /\ tree_after t (Some true) refresh = t.
+Proof. exact (fun t rooted refresh => conj (tree_after_leaves t rooted refresh) (tree_after_rooted t refresh)). Qed.
+Print Assumptions mrca_refresh_keeps_leaves.
+
+(* the other argument forms: taxon_labels= resolves the labels in the namespace (every member with
+   one of the labels, no repeats) and raises KeyError unless that gives exactly as many taxa as
+   labels; leafset_bitmask= of the OR of the members' bits is the same query *)
+Theorem tree_mrca_forms : forall ns mt start updated,
+  (forall ls, tree_mrca ns mt (ByLabels ls) start updated =
+              if Nat.eqb (length (get_taxa ns ls)) (length ls)
+              then tree_mrca ns mt (ByTaxa (get_taxa ns ls)) start updated
+              else (Err KeyErr, mt)) /\
+  (forall S, (forall a, In a S -> member ns a) ->
+             tree_mrca ns mt (ByMask (mask_of (bitf ns) S)) start updated
+             = tree_mrca ns mt (ByTaxa S) start updated).
+Proof. exact (fun ns mt start updated => conj (fun ls => Proofs.C14Mrca.tree_mrca_labels ns mt ls start updated)
+                                             (fun S H => Proofs.C14Mrca.tree_mrca_mask ns mt S start updated H)). Qed.
+Print Assumptions tree_mrca_forms.
+
+(* error branches: empty taxon list / zero mask -> ValueError, no argument -> TypeError, a taxon
+   that is not in the namespace -> KeyError; the tree object is untouched *)
+Theorem tree_mrca_errors : forall ns mt start updated,
+  tree_mrca ns mt (ByTaxa []) start updated = (Err ValueErr, mt) /\
+  tree_mrca ns mt (ByMask 0) start updated = (Err ValueErr, mt) /\
+  tree_mrca ns mt NoArg start updated = (Err TypeErr, mt) /\
+  (forall S a, In a S -> ns_bit ns a = None -> tree_mrca ns mt (ByTaxa S) start updated = (Err KeyErr, mt)).
+Proof. exact tree_mrca_errors_p. Qed.
+Print Assumptions tree_mrca_errors.
+
+(* ---------------------------------------------------------------------------------------- *)
+(* UPGMA, one iteration of the while loop on a well-formed pool (uwf: distinct nodes, all mutual
+   distances stored, non-empty clusters; qdef = the stored distance):
+   the pair joined is the first pair in pool order at the smallest stored distance d; the new node
+   gets the two joined nodes as children with edge lengths d/2 - (their distance from the tips), its
+   own distance from the tips is d/2, its cluster size the sum; every other node keeps its subtree,
+   size, tip distance and all stored distances, and gains the entry for the new node = the
+   size-weighted average of its distances to the two joined nodes (stored in both directions); the
+   new pool is well-formed again.  SOUNDNESS: whenever the two joined nodes are equidistant from a
+   node k (as sibling clusters of an ultrametric tree are), the reduced distance to k is exactly that
+   common distance, i.e. the reduced matrix is the ultrametric of the tree with the pair contracted,
+   and the two new edge lengths are the height of the join minus the heights of the children. *)
+Theorem upgma_step_sound : forall pool next,
+  uwf pool -> (2 <= length pool)%nat -> ~ In next (uids pool) ->
+  exists j0 j1 rest newn,
+    upgma_step pool next = Ok (rest ++ [newn]) /\
+    In (j0, j1) (pairs_of pool) /\
+    (forall a b, In (a, b) (pairs_of pool) -> (qdef (u_d j0) (u_id j1) <= qdef (u_d a) (u_id b))%Q) /\
+    (exists l0 l1,
+       u_tree newn = QT next None None [q_setlen (u_tree j0) l0; q_setlen (u_tree j1) l1] /\
+       (l0 == qdef (u_d j0) (u_id j1) / 2 - u_tip j0)%Q /\ (l1 == qdef (u_d j0) (u_id j1) / 2 - u_tip j1)%Q) /\
+    (u_tip newn == qdef (u_d j0) (u_id j1) / 2)%Q /\ u_size newn = u_size j0 + u_size j1 /\
+    map u_id rest = map u_id (remove_id u_id (u_id j1) (remove_id u_id (u_id j0) pool)) /\
+    (forall k', In k' rest -> exists k,
+        In k pool /\ u_id k <> u_id j0 /\ u_id k <> u_id j1 /\
+        u_id k' = u_id k /\ u_tree k' = u_tree k /\ u_size k' = u_size k /\ u_tip k' = u_tip k /\
+        (forall b, b <> next -> dget b (u_d k') = dget b (u_d k)) /\
+        exists w, dget next (u_d k') = Some w /\ dget (u_id k) (u_d newn) = Some w /\
+                  (w == (qdef (u_d j0) (u_id k) * inject_Z (u_size j0) + qdef (u_d j1) (u_id k) * inject_Z (u_size j1))
+                        / inject_Z (u_size j0 + u_size j1))%Q /\
+                  ((qdef (u_d j0) (u_id k) == qdef (u_d j1) (u_id k))%Q -> (w == qdef (u_d j0) (u_id k))%Q)) /\
+    uwf (rest ++ [newn]).
+Proof. exact upgma_step_sound_l. Qed.
+Print Assumptions upgma_step_sound.
+
+(* NJ, one iteration of the while loop on a well-formed pool (jwf: distinct nodes, all mutual
+   distances stored and symmetric, and _nj_xsub of every node = the sum of its distances to the
+   others; jd = the stored distance; n = len(pool)):
+   the pair joined is the first pair in pool order minimising (n-2) d(a,b) - xsub a - xsub b; the new
+   node gets the pair as children, the two edge lengths add up to d(j0,j1) (each d/2 in the final
+   join of two nodes); every other node keeps its subtree and its distances to the other nodes and
+   gains d(k,new) = (d(k,j0) + d(k,j1) - d(j0,j1)) / 2, stored in both directions; and the invariant
+   holds again -- in particular the INCREMENTALLY UPDATED ROW SUMS are the true row sums of the
+   reduced matrix.  SOUNDNESS: if the joined pair is a cherry of an additive metric (is_cherry:
+   pendant lengths a0, a1 and distances mv from the attachment point), then the reduced matrix is the
+   tree metric of the contracted tree (d(k,new) = mv k) and the two new edge lengths are exactly a0
+   and a1. *)
+Theorem nj_step_sound : forall pool n next,
+  jwf pool -> n = Z.of_nat (length pool) -> (2 <= length pool)%nat -> ~ In next (jids pool) ->
+  exists j0 j1 rest newn l0 l1,
+    nj_step pool n next = Ok (rest ++ [newn]) /\
+    In (j0, j1) (pairs_of pool) /\
+    (forall a b, In (a, b) (pairs_of pool) -> (qvalue n j0 j1 <= qvalue n a b)%Q) /\
+    j_tree newn = QT next None None [q_setlen (j_tree j0) l0; q_setlen (j_tree j1) l1] /\
+    (n = 2 -> (l0 == jd j0 j1 / 2)%Q /\ (l1 == jd j0 j1 / 2)%Q) /\
+    (l0 + l1 == jd j0 j1)%Q /\
+    let others := remove_id j_id (j_id j1) (remove_id j_id (j_id j0) pool) in
+    map j_id rest = map j_id others /\ map j_tree rest = map j_tree others /\
+    (forall k, In k others -> exists k', In k' rest /\ j_id k' = j_id k /\
+        (forall v v', In v others -> In v' rest -> j_id v' = j_id v -> j_id v <> j_id k -> jd k' v' = jd k v) /\
+        (jd k' newn == (jd k j0 + jd k j1 - jd j0 j1) / 2)%Q /\ jd newn k' = jd k' newn) /\
+    jwf (rest ++ [newn]) /\
+    (forall a0 a1 mv, is_cherry others j0 j1 a0 a1 mv ->
+       (forall k k', In k others -> In k' rest -> j_id k' = j_id k -> (jd k' newn == mv k)%Q) /\
+       (2 < n -> (l0 == a0)%Q /\ (l1 == a1)%Q)).
+Proof. exact nj_step_sound_l. Qed.
+Print Assumptions nj_step_sound.
